@@ -561,6 +561,10 @@ def ev(t, val: Valuation):
         # a comprehension as a whole is an uninterpreted function of its parts (element, iterable, filters)
         return _h("comp", t[1], _key(ev(t[3], val)), repr(t[2]), repr(t[4]))
     if k == "read":
+        if isinstance(t[1], str) and t[1] in ENUM_TYPES and t[2] == C(1):
+            v = ev(t[3], val)
+            if isinstance(v, int):
+                return v  # an enum / flag value constructed from an integer compares and combines like that integer
         return _h("read", repr(_key(ev(t[1], val))) if isinstance(t[1], tuple) else t[1], _key(ev(t[2], val)), _key(ev(t[3], val)), t[4:] and t[4])
     if k in ("type", "func", "cls", "mod"):
         return _h(k, t[1])
@@ -583,6 +587,8 @@ class _CInt:
     def __repr__(self):
         return f"cint({self.value})"
 
+
+ENUM_TYPES: set = set()  # names of cstruct enum / flag types seen by the reconstruction
 
 _MODELS = {
     "ext:ctypes.c_int64": lambda x: _CInt(x, 64, True), "ext:ctypes.c_uint64": lambda x: _CInt(x, 64, False),
